@@ -17,6 +17,34 @@ CHECKS = {
   note=("Trusted: Lean kernel + {propext, Classical.choice, Quot.sound}; hand-written model (tie = differential test, exhaustive only on "
         "the 3x3 boxes); Rust i32 modelled as unbounded Int (no wrap is observed through exact equality, not proved)."),
   technique="Lean 4 proof (induction over elementary column/row operations, termination measure) + model/implementation correspondence"),
+ "C18": dict(
+  category="other",
+  text=("Three layers. (1) Lean theorems: any adaptive program that uses a hash map only through the lookup-only interface (insert, get, "
+        "contains_key, entry/or_insert, len, index, remove) observes the same results under every iteration order an adversary "
+        "can choose (refinement to the abstract map Key -> Option Val), with the negative twin for iter().next(); k threads racing on a "
+        "lazily initialised global with a pure initialiser all read the same value under every schedule. (2) A regenerated source "
+        "inventory (every static/Lazy/thread_local, every HashMap/HashSet binding with every method called on it, RNG/clock/env use) "
+        "with kernel-decided table theorems: all hash containers are lookup-only, nothing escapes, statics are pure Lazy tables. "
+        "(3) Exploration of what no model shows: byte-for-byte comparison of serialized datasets across fresh processes (independent "
+        "hash seeds), repeated calls, random call histories, and 16 threads incl. first touch of the lazy tables under contention."),
+  design_ref="DESIGN.md §3 C18",
+  note=("Trusted: once_cell's at-most-once store (modelled as an assumption), the tokenising inventory translator, the OS scheduler being "
+        "sampled not enumerated. Real thread interleavings inside moyo are not modelled (moyo has no shared mutable state per the inventory)."),
+  technique="Lean 4 refinement proofs (order-free map interface, lazy-init state machine) + regenerated source inventory decided in the kernel + multi-process/thread differential runs",
+  engine="lean-proofs+inventory+exploration"),
+ "C20": dict(
+  category="translation_validation",
+  text=("The Python view is validated against the Rust values it is translated from: for every generated input and keyword combination, "
+        "every attribute of every Python class is compared with the Rust value computed in-process by the harness (floats bitwise, "
+        "orientation of every matrix exactly, non-symmetric matrices throughout), and a bad-argument stream must raise ValueError "
+        "(never PanicException). Behind it, Lean theorems about a model of nalgebra's column-major storage (which conversion yields rows "
+        "vs. the transpose; Lattice::new round trip) and kernel-decided table theorems over the regenerated getter/signature/error "
+        "inventory of moyopy/src (documented orientation per getter, defaults, MoyoError -> ValueError, unwrap inventory)."),
+  design_ref="DESIGN.md §3 C20",
+  note=("Trusted: CPython, pyo3, the extension build (release profile; debug profile for the bad-argument stream in thorough), the "
+        "tokenising translator (validated against the running code), the storage model (compared with real nalgebra conversions on every run)."),
+  technique="translation validation: Python attributes vs Rust values on generated inputs + Lean storage-layout theorems + regenerated binding inventory decided in the kernel",
+  engine="lean-proofs+inventory+python-differential"),
 }
 
 NA_REASON = "check not built yet (work in progress; will be claimed)"
